@@ -152,6 +152,9 @@ class WindowFunction(ASTNode):
 
     def to_string(self, *args, **kwargs):
         fnc_str = self.function.get_string()
+        if getattr(self.function, 'parentheses', False):
+            # OVER after a parenthesised expression: ( f() ) OVER (...), ( SELECT ... ) OVER (...)
+            fnc_str = f'({fnc_str})'
         partition_str = ''
         if self.partition is not None:
             partition_str = 'PARTITION BY ' + ', '.join([arg.to_string() for arg in self.partition])
